@@ -422,6 +422,50 @@ def clone_checks(ctx):
             ctx.fail("editing the clone changed the original", inp, root.plain(), before)
 
 
+def equality_and_doctor(ctx):
+    """(a) Element equality is by name and namespace URI, whatever prefix spells the namespace: a clone stays equal
+    to its original after being re-prefixed for the same URI, and ==, in, index, count on child lists find such nodes.
+    (b) the schema doctor (a plugin editing parsed trees) adds an import only when the schema has none for that
+    namespace - wherever that import stands among the schema's children - and then leaves the tree as it was."""
+    from suds.sax.element import Element
+    from suds.sax.parser import Parser
+    doc = ('<r xmlns:a="urn:n" xmlns:b="urn:n" xmlns:c="urn:other" xmlns="urn:n"><a:item/><b:item/><item/><c:item/>'
+           '<x xmlns="">plain</x></r>')
+    root = Parser().parse(string=doc.encode()).root()
+    kids = root.children
+    facts = {"a:item == b:item": kids[0] == kids[1], "a:item == default item": kids[0] == kids[2],
+             "a:item != c:item": kids[0] != kids[3], "count": kids.count(kids[1]) == 3, "index": kids.index(kids[2]) == 0,
+             "in": Element("item", ns=("z", "urn:n")) in kids, "not in": Element("item", ns=("z", "urn:zz")) not in kids}
+    cl = kids[0].clone()
+    facts["clone == original"] = cl == kids[0]
+    cl.setPrefix("zz", "urn:n")
+    facts["re-prefixed clone == original"] = cl == kids[0] and cl.namespace()[1] == "urn:n"
+    ctx.case(("equality",), True)
+    if not all(facts.values()):
+        ctx.fail("element equality does not go by name and namespace URI", {"doc": doc},
+                 sorted(k for k, v in facts.items() if not v), "all of: " + ", ".join(sorted(facts)))
+    import suds.xsd.doctor as doctor
+    XS = "http://www.w3.org/2001/XMLSchema"
+    for lead in ("", "<xs:annotation/>", '<xs:include schemaLocation="i.xsd"/>',
+                 '<xs:import namespace="urn:first"/><xs:annotation/>'):
+        for present in (True, False):
+            sch = ('<xs:schema xmlns:xs="%s" targetNamespace="urn:t">%s%s<xs:element name="e" type="xs:string"/></xs:schema>'
+                   % (XS, lead, '<xs:import namespace="urn:want"/>' if present else ""))
+            tree = Parser().parse(string=sch.encode()).root()
+            before = tree.plain()
+            imp = doctor.Import("urn:want")
+            imp.apply(tree)
+            meta = {"stream": "doctor", "before_import": lead, "import_present": present}
+            ctx.case(common.canon(meta), True)
+            n = len([c for c in tree.children if c.name == "import" and c.get("namespace") == "urn:want"])
+            others = [c.plain() for c in tree.children if not (c.name == "import" and c.get("namespace") == "urn:want")]
+            want_others = [c.plain() for c in Parser().parse(string=sch.encode()).root().children
+                           if not (c.name == "import" and c.get("namespace") == "urn:want")]
+            if n != 1 or others != want_others or (present and tree.plain() != before):
+                ctx.fail("the schema doctor did not leave exactly one import for the namespace (tree otherwise "
+                         "untouched)", meta, tree.plain(), before if present else "one added import")
+
+
 def kf_clone_attr_ns(f, k):
     """D21: the clone differs only in the namespace of attributes whose prefix is bound above the cloned node."""
     return f.get("what", "").startswith("clone is not equal") and f.get("masked_equal") is True
@@ -492,6 +536,7 @@ def run(ctx):
         runs.append(run_history(ctx, specs, choose, L, "random"))
     judge(ctx, runs)
     clone_checks(ctx)
+    equality_and_doctor(ctx)
     if runs:
         ctx.sample({"forest": runs[0]["forest"], "ops": runs[0]["ops"][:4]})
     ctx.sample({"forest": [FIXED], "ops": [{"op": "detach", "n": 3}, {"op": "prune", "n": 1}]})
